@@ -4,6 +4,7 @@ package main
 
 import (
 	"bufio"
+	"context"
 	"fmt"
 	"os"
 	"os/exec"
@@ -12,6 +13,7 @@ import (
 	"strconv"
 	"strings"
 	"sync"
+	"time"
 )
 
 var (
@@ -77,9 +79,16 @@ func straceCall(self, work, name, path, arg, inject string, env []string) (resul
 		args = append(args, "-P", path, "-e", "inject="+inject)
 	}
 	args = append(args, self, "helper", "call", name, path, arg)
-	cmd := exec.Command("strace", args...)
+	// a helper that blocks (a FIFO open, a lock never released) must not hang the check
+	ctx, cancel := context.WithTimeout(context.Background(), 60*time.Second)
+	defer cancel()
+	cmd := exec.CommandContext(ctx, "strace", args...)
 	cmd.Env = append(os.Environ(), env...)
+	cmd.WaitDelay = 2 * time.Second
 	stdout, e := cmd.Output()
+	if ctx.Err() != nil {
+		return "", nil, "", fmt.Errorf("helper call %s did not finish within 60s (killed)", name)
+	}
 	if e != nil {
 		if _, ok := e.(*exec.ExitError); !ok {
 			return "", nil, "", e
